@@ -124,7 +124,7 @@ func c13S3(r *core.R) {
 			switch o {
 			case "create", "update":
 				nIter++
-			case "typed", "pass", "other-error":
+			case "typed", "pass", "other-error", "typed-nil":
 				nExit++
 				if e := x.resolve(p.st, p.res[len(p.res)-1]); !x.nonNil(p.st, e) {
 					bad = fmt.Sprintf("the iteration leaves annotate.Change with the error value `%s`, which is not known to be non-nil (path conditions: %s): the remaining elements may silently get no action", m.show(e), m.conds(p))
